@@ -597,3 +597,15 @@ pub use self::wasm_simd::wasm_simd_planner::FftPlannerWasmSimd;
 
 #[cfg(test)]
 mod test_utils;
+
+// Verification hooks (add-only). Compiled only with `--cfg ejmahler_rustfft_verif`; the module bodies live outside
+// this repository, in the directory named by the EJMAHLER_RUSTFFT_VERIF_DIR environment variable.
+#[cfg(all(kani, ejmahler_rustfft_verif))]
+mod verif_kani {
+    include!(concat!(env!("EJMAHLER_RUSTFFT_VERIF_DIR"), "/kani/harness.rs"));
+}
+#[cfg(all(not(kani), ejmahler_rustfft_verif))]
+#[doc(hidden)]
+pub mod verif_replay {
+    include!(concat!(env!("EJMAHLER_RUSTFFT_VERIF_DIR"), "/replay/incrate.rs"));
+}
